@@ -331,11 +331,13 @@ func CheckC13(run *Run) {
 	reqs := append(append(FeatureCatalogue(), RuntimeCatalogue()...), BuildCatalogue()...)
 	reqs = append(reqs, RawRequest())
 	reqs = append(reqs, HostileCatalogue()...)
-	nRandom := 12
+	reqs = append(reqs, SameKindCatalogue()...)
+	nRandom, nSameKind := 12, 4
 	if run.Tier == "thorough" {
-		nRandom = 300
+		nRandom, nSameKind = 300, 80
 	}
 	reqs = append(reqs, RandomBuildRequests(rand.New(rand.NewSource(run.Seed+13)), nRandom)...)
+	reqs = append(reqs, RandomSameKindRequests(rand.New(rand.NewSource(run.Seed+1313)), nSameKind)...)
 	s := NewSession(run, reqs)
 	w, err := NewGoWork(fmt.Sprintf("%s-%s-%s", run.Property, run.Tier, run.TreeHash))
 	if err != nil {
